@@ -620,6 +620,25 @@ func C19(c *vk.Ctx) {
 		if lj.Err == "" && lc.Err == "" && !reflect.DeepEqual(lj.Eff, lc.Eff) {
 			c.Violation("syntaxes-disagree:"+effDiff(lj.Eff, lc.Eff), "the JSON and Caddyfile forms of the same settings yield different validators", rep)
 		}
+		// the same configuration loaded again (after the Cleanup of the first instance), with work_dir written the way people write
+		// directories: a trailing separator, a "./" element, a doubled separator. What a configuration means does not depend on what
+		// the process loaded before.
+		if i%4 == 0 && !row.Effective.Reject && row.Provision && lj.Err == "" {
+			base := env.workDir()
+			spelled := []string{base + "/", filepath.Dir(base) + "/./" + filepath.Base(base), filepath.Dir(base) + "//" + filepath.Base(base)}[(i/4)%3]
+			first := loadJSON(env.renderJSON(r, spelled))
+			again := loadJSON(env.renderJSON(r, spelled))
+			againCf := loadCaddyfile(env.renderCaddyfile(r, spelled, 0))
+			rep["work_dir_as_written"], rep["first_load"], rep["second_load"], rep["third_load_caddyfile"] = spelled, first, again, againCf
+			if first.Err == "" && (again.Err != "" || againCf.Err != "") {
+				c.Violation("same-configuration-rejected-when-loaded-again:"+classifyErr(again.Err+againCf.Err),
+					fmt.Sprintf("a valid configuration (work_dir written %q) loads and provisions once; after its Cleanup the same configuration is rejected: %s %s", spelled, again.Err, againCf.Err), rep)
+			} else if first.Err != "" {
+				c.Violation("json:rejects-valid-configuration:work-dir-spelling", fmt.Sprintf("a valid configuration fails when work_dir is written %q: %s", spelled, first.Err), rep)
+			} else if !reflect.DeepEqual(first.Eff, again.Eff) {
+				c.Violation("same-configuration-differs-when-loaded-again:"+effDiff(first.Eff, again.Eff), "the same configuration yields another validator when loaded a second time", rep)
+			}
+		}
 		for _, lp := range []loaded{lp1, lp2} {
 			if (lp.Err == "") != (lc.Err == "") {
 				c.Violation("directive-order-decides-acceptance", fmt.Sprintf("the same Caddyfile directives in another order are %s (%q) while the documented order is %s (%q)",
